@@ -132,23 +132,33 @@ class Ref:
 
     # ---- constraints ------------------------------------------------------------------------------
     def con_atoms(self, ci, c, evalf, label):
-        """atoms of one instance; evalf(expr)->value"""
+        """atoms of one instance; evalf(expr)->value.  Vector-valued constraints give one atom (pair) per component."""
         sc = c.scale
         one = isinstance(sc, int) and sc == 1
         dv = (lambda v: v) if one else (lambda v: v / self.dom.const(sc))
-        if c.op == '==':
-            return [('eq', dv(evalf(c.lhs) - evalf(c.rhs)), label)]
-        if c.op == '<=':
-            return [('le', dv(evalf(c.lhs) - evalf(c.rhs)), label)]
-        if c.op == '>=':
-            return [('le', dv(evalf(c.rhs) - evalf(c.lhs)), label)]
-        if c.op == '<=<=':
-            m = evalf(c.mid)
-            return [('le', dv(evalf(c.lhs) - m), label + '.lo'), ('le', dv(m - evalf(c.rhs)), label + '.hi')]
-        raise ValueError(c.op)
+        out = []
+        comps = c.components()
+        for i, (lhs, rhs, mid) in enumerate(comps):
+            lab = label if len(comps) == 1 else '%s[%d]' % (label, i)
+            if c.op == '==':
+                out.append(('eq', dv(evalf(lhs) - evalf(rhs)), lab))
+            elif c.op == '<=':
+                out.append(('le', dv(evalf(lhs) - evalf(rhs)), lab))
+            elif c.op == '>=':
+                out.append(('le', dv(evalf(rhs) - evalf(lhs)), lab))
+            elif c.op == '<=<=':
+                m = evalf(mid)
+                out += [('le', dv(evalf(lhs) - m), lab + '.lo'), ('le', dv(m - evalf(rhs)), lab + '.hi')]
+            else:
+                raise ValueError(c.op)
+        return out
 
     def con_is_signal(self, c):
-        parts = [c.lhs, c.rhs] + ([c.mid] if c.mid is not None else [])
+        parts = []
+        for side in (c.lhs, c.rhs, c.mid):
+            if side is None:
+                continue
+            parts += side if isinstance(side, list) else [side]
         return any(is_signal(self.spec, p) for p in parts)
 
     def constraint_atoms(self, which=None):
